@@ -20,4 +20,4 @@ def parts(ctx):
                      'contexts compared with equality against the model; kind=chanv slow / stalled consumer x capacities: trace == gate(script), measured max(produced - consumed) <= capacity + 2 '
                      '(counter incremented before the source emits, after the consumer callback returns), racing unsubscription: prefix, at most one failed send, no escape',
                 assumptions=['Go channels and sync.Once modelled with textbook semantics (RoModel/Chan.lean header)'],
-                extra=dict(handoff=stats, text=TEXT))
+                extra=dict(handoff=stats, text=TEXT), search=CC.shape_search)
